@@ -64,6 +64,9 @@ type Explorer struct {
 	// Shard / Of split the search between processes: the schedules below the k-th first-level
 	// alternative belong to shard k mod Of; the default schedule itself to shard 0.  Of = 0: no split.
 	Shard, Of int
+	// Reverse: the default choice when the running thread is blocked is the HIGHEST thread id instead
+	// of the lowest (a second default schedule: the deviation ball around it is another region)
+	Reverse bool
 }
 
 // Run executes one schedule: prefix is replayed (a choice out of range is a hard error), then
@@ -84,7 +87,12 @@ func (e *Explorer) Run(mk func() *Instance, prefix []int) (*Instance, *Outcome, 
 	w.MaxSteps = 200000
 	w.Chooser = func(w *rt.World, cur *rt.Thread, en []*rt.Thread) *rt.Thread {
 		// canonical order: running thread first (if enabled), then ascending ids
-		sort.Slice(en, func(i, j int) bool { return en[i].ID < en[j].ID })
+		sort.Slice(en, func(i, j int) bool {
+			if e.Reverse {
+				return en[i].ID > en[j].ID
+			}
+			return en[i].ID < en[j].ID
+		})
 		order := make([]*rt.Thread, 0, len(en))
 		runEn := false
 		for _, t := range en {
